@@ -403,6 +403,9 @@ def gen_tree_case(rng, small=False):
     grid = rng.choice([2, 3, 5, 9])
     off = rng.choice([0, 0, 0, -1, -3, -5])        # "all fitted trees": features (hence thresholds) of either sign
     X = [[rng.randint(0, grid) / rng.choice([1, 2, 4]) + off for _ in range(d)] for _ in range(n)]
+    if rng.random() < 0.25:
+        # real-valued features (thirds, tenths): midpoints between them are thresholds float32 cannot hold
+        X = [[rng.randint(0, 3 * grid) / rng.choice([3.0, 10.0, 7.0]) + off for _ in range(d)] for _ in range(n)]
     kind = rng.choice(["reg", "clf"])
     if kind == "reg":
         y = [rng.randint(-8, 8) / 2 for _ in range(n)]
@@ -450,6 +453,12 @@ def gen_points(rng, case, model, k):
     for f, t in zip(tr.feature, tr.threshold):
         if f >= 0 and f32ok(t):
             ths.setdefault(int(f), []).append(float(t))
+        elif f >= 0:
+            # a threshold float32 cannot hold: its float32 rounding and the two float32 neighbours are the query values
+            # closest to it (scikit-learn compares float32(x) with the float64 threshold)
+            t32 = numpy.float32(t)
+            ths.setdefault(int(f), []).extend([float(t32), float(numpy.nextafter(t32, numpy.float32(numpy.inf))),
+                                                float(numpy.nextafter(t32, numpy.float32(-numpy.inf)))])
     pts = []
     for _ in range(k):
         r = rng.random()
@@ -461,7 +470,7 @@ def gen_points(rng, case, model, k):
             q = rng.random()
             if f in ths and q < 0.45:
                 t = rng.choice(ths[f])
-                p[f] = t + rng.choice([0.0, 0.0, 0.125, -0.125])
+                p[f] = t + rng.choice([0.0, 0.0, 0.0, 0.125, -0.125])
             elif q < 0.5:
                 p[f] = rng.choice([-100.0, 100.0])
         # every coordinate is made exactly float32-representable (t ± 1/8 need not be for a random-splitter threshold)
